@@ -297,7 +297,11 @@ fn handle(mode: &str, fields: &[&str]) -> String {
             let b = svg.find("</style>").unwrap_or(svg.len());
             let css = &svg[a..b];
             // the style text is `css0 + "\n" + legend`; no legend here
-            hex(css.strip_suffix('\n').unwrap_or(css))
+            // the text was escaped for the style element: undo that (characters that were dropped
+            // stay dropped, which the model's own escaping would do again anyway)
+            let css = css.strip_suffix('\n').unwrap_or(css);
+            let css = css.replace("&lt;", "<").replace("&gt;", ">").replace("&#13;", "\r").replace("&amp;", "&");
+            hex(&css)
         }
         "escape_line" => {
             escape_line(fields[0].parse().expect("y"), &unhex(fields[1]))
